@@ -424,6 +424,11 @@ def run(ctx):
             why.append("reference values disagree (%.3g): oracle unusable for this case" % r["refgap"])
         if r["lanczos_inner"] > 1e-9:
             why.append("Lanczos three-term relation violated on logged alpha/beta/V (%.3g)" % r["lanczos_inner"])
+        if not r.get("input_unchanged", False):
+            why.append("the start vector passed in was modified by the call (not bit-identical to a copy taken before)")
+        sc2 = r.get("second_call_err")
+        if isinstance(sc2, str) or sc2 is None or sc2 > KRYLOV_TOL:
+            why.append("second call with the same (unnormalised) array: %s" % (sc2 if isinstance(sc2, str) or sc2 is None else "error %.3g" % sc2))
         if r["ret_gap"] > 1e-9:
             why.append("returned vector is not ||v|| V exp(dt T) e1 for the logged alpha/beta/V (%.3g)" % r["ret_gap"])
         if r.get("complete") is not None:
@@ -564,7 +569,7 @@ def run(ctx):
         ctx.violation("krylov-accuracy", "Krylov exponential vs dense reference / Lanczos relations on the real code",
                       {"failing": len(k_bad), "smallest": mini}, found=True,
                       repro=GENERIC_REPRO % (json.dumps({"seed": seed, "cases": [mini["case"]]}), os.path.join(impl_script, "c18_krylov.py"),
-                                             "r['error'] or r['err'] > %g or r['lanczos_inner'] > 1e-9 or r['warn']" % KRYLOV_TOL))
+                                             "r['error'] or r['err'] > %g or r['lanczos_inner'] > 1e-9 or r['warn'] or not r.get('input_unchanged') or not isinstance(r.get('second_call_err'), float) or r['second_call_err'] > %g" % (KRYLOV_TOL, KRYLOV_TOL)))
     if k_ctrl_bad:
         ctx.violation("krylov-control", "correspondence Model/Krylov.v vs expm_krylov (exit taken, iteration count, buffer lengths, iterations at which _expm_krylov is called); krylov_buffers_safe no longer describes the code",
                       {"mismatches": len(k_ctrl_bad), "first": k_ctrl_bad[:3]}, found=False)
